@@ -10,8 +10,8 @@ for line in open("DESIGN.md"):
 
 CHECKS = {
  "C36": dict(engine="procsim", category="exploration", ref="4.1",
-   technique="deterministic simulation: real forked processes stepped at every DB-API call by a seeded scheduler, with crash (SIGKILL) / stall / I/O-error / restart / linger faults and a virtual busy-timeout clock; invariants on identifiers checked online and on the final table",
-   text="Seeded search over interleavings and fault sequences of 2-4 real OS processes creating sessions (Session(), get_default_session, AnalyzeDex, later addAPK/addDEX/event work) on one SQLite file, fresh, pre-populated by the code under test or written by the unchanged code; every run is one exactly replayable schedule. Sampling, not proof: a clean batch is evidence for the explored interleavings only.",
+   technique="deterministic simulation: real forked processes stepped at every DB-API call (and at sleeps / exclusive file creation of the code under test) by a seeded scheduler, with crash (SIGKILL) / stall / I/O-error / restart / linger faults, a virtual busy-timeout clock and a fault horizon after which bounded progress is required; invariants on identifiers checked online and on the final table",
+   text="Seeded search over interleavings and fault sequences of 2-4 real OS processes creating sessions (Session(), get_default_session, AnalyzeDex, later addAPK/addDEX/event work) on one SQLite file, fresh, pre-populated by the code under test, written by Session.save(file) or written by the unchanged code; every run is one exactly replayable schedule. Sampling, not proof: a clean batch is evidence for the explored interleavings only.",
    note="Trusted: the DB-API seam (sqlite3 Connection/Cursor subclasses), the virtual re-implementation of SQLite's busy handler, tmpfs as the file system. Not covered: other database back ends, several hosts."),
  "C17": dict(engine="histsim", category="exploration", ref="4.3",
    technique="deterministic simulation of API-call histories: seeded sequences of rename/reload/query/disassemble operations on one DEX object, checked step by step against a dictionary reference model, with delta-debugging minimisation and exact replay",
@@ -23,19 +23,19 @@ CHECKS = {
    note="Trusted: gen/dexasm.py (self-checked against the parser; identical code bytes in single and split builds). Reference = single-DEX analysis by the same code."),
  "C22": dict(engine="ndsim", category="exploration", ref="4.2",
    technique="deterministic simulation of the ambient nondeterminism: child interpreters with seed-derived PYTHONHASHSEED, seeded identity hash (__hash__ seam) on every androguard object, and seeded decompilation histories; all simulated processes must emit identical text per target",
-   text="Seeded search over (hash seed, identity-hash layout, id() values with reuse, clock start and speed, TZ/locale/cwd, decompilation history incl. AST requests and an earlier DEX) for corpus, APK-embedded and generated DEX files with loops, switches, short-circuit conditions, multi-handler try/catch and mixed-type registers. Sampling, not proof.",
+   text="Seeded search over (hash seed, identity-hash layout, id() values with reuse, clock start and speed, TZ/locale/cwd, decompilation history incl. AST requests, an earlier DEX and a class rename in mid-history) for corpus, APK-embedded and generated DEX files with loops, switches, short-circuit conditions, multi-handler try/catch (also retry loops) and mixed-type registers. Sampling, not proof.",
    note="Trusted: CPython orders identity-hashed set/dict members only through __hash__; gen/dexasm.py. Real addresses are never used as a deciding seam (not reproducible here)."),
  "C35": dict(engine="iosim", category="exploration", ref="4.5",
-   technique="deterministic simulation with storage-fault injection: seeded EOF / altered-byte / oversized-count / removed-terminator / offset-into-junk faults on the parsers' byte store, liveness judged on a virtual step clock (sys.monitoring) with an extension window that watches stream progress",
-   text="Seeded search over 1-3 storage faults placed with the recorded read map of the pristine parse (file level and archive-entry level), plus crafted binary-XML documents and manifests, for DEX, AXML, ARSC and APK entry points; non-termination is a deterministic, replayable verdict (step clock), with a real-time back-stop for native code. Sampling, not proof.",
+   technique="deterministic simulation with storage-fault injection: seeded EOF / altered-byte / oversized-count / removed-terminator / offset-into-junk / broken-multi-byte faults on the parsers' byte store, liveness judged on a virtual step clock (sys.monitoring) with an extension window that watches stream progress",
+   text="Seeded search over 1-3 storage faults placed with the recorded read map of the pristine parse (file level and archive-entry level), plus crafted binary-XML documents, manifests and resource tables (also cooperating in one archive), for DEX, AXML, ARSC and APK entry points; non-termination is a deterministic, replayable verdict (step clock), with a real-time back-stop for native code. Sampling, not proof.",
    note="Trusted: step clock counts Python lines in androguard/apkInspector only (C code is not counted); budget B(n)=min(500n+2e6,4e7) only flags, the verdict needs no stream progress and a frame that never returned."),
  "C09": dict(engine="iosim", category="fault_enumeration", ref="4.6",
    technique="fault enumeration at the storage seam: every single stored-byte fault at every offset >= 12 (stale checksum) plus header-field faults with recomputed checksum; the recorded read history and a wrapped ClassManager.add_type_item decide 'before any structure is parsed'",
-   text="Enumerates offset x value for small corpus and generated DEX files (quick: 4 values per offset, all 255 for files <= 700 B; thorough: all 255) through DEX(buf) and ODEX(buf), pristine file parsed first; header-field faults also on valid variations of the magic; under the step clock (a check that never returns is not a rejection). Exhaustive only for the files and values of the run.",
+   text="Enumerates offset x value for small corpus and generated DEX files (quick: 4 values per offset, all 255 for files <= 700 B; thorough: all 255) through DEX(buf), ODEX(buf) and DEX(APK object), pristine file parsed first, a seeded share of the runs in an interpreter started with -O / -OO; header-field faults also on valid variations of the magic; under the step clock (a check that never returns is not a rejection). Exhaustive only for the files and values of the run.",
    note="Trusted: the recording io shim; 'wrong' header values are exactly those the statement names."),
  "C32": dict(engine="iosim-archive", category="fault_enumeration", ref="4.7",
    technique="fault enumeration on archive entries as storage: every single-byte fault in .SF, signature value, signed attributes and signer id of v1-signed APKs, archive rewritten, real APK code asked for the certificate; pre-condition re-checked by an independent verifier",
-   text="Tamper half of the property: enumerates offset x value per region (quick: 2 values, thorough: all 255, capped per worker), each fault followed by a short query history on one APK object (other blocks first, max_sdk_version, get_certificates_v1, earlier related archives, case-variant twin entries, re-ordered signed attributes). Positive half only as far as crafted invalid / forged blocks go: a block that an independent verifier rejects must never yield a certificate, under histories of related archives.",
+   text="Tamper half of the property: enumerates offset x value per region (quick: 2 values, thorough: all 255, capped per worker), each fault followed by a short query history on one APK object (other blocks first, max_sdk_version, get_certificates_v1, earlier related archives, case-variant twin entries, re-ordered signed attributes, re-encoded signature values; a seeded share of the runs in an interpreter started with -O / -OO). Positive half only as far as crafted invalid / forged blocks go: a block that an independent verifier rejects must never yield a certificate, under histories of related archives (all such blocks are swept in every batch).",
    note="Trusted: asn1crypto for locating regions, cryptography for the independent pre-condition, own X500 canonical-name comparison for the 'same certificate reference' guard."),
  "C37": dict(engine="fssim", category="exploration", ref="4.8",
    technique="deterministic simulation of the file system: the export command runs against an in-memory POSIX-like file system (os/open/input rebound), every mkdir/create is an event checked against the output directory; seeded ENOSPC/EACCES/EEXIST faults, pre-existing contents and scripted stdin",
